@@ -96,7 +96,7 @@ ENC = ["csvpath/csvpaths.py:CsvPaths.collect_paths/fast_forward_paths/next_paths
     outside="I/O faults; groups of 1, 2 or 4; files of more than 5 lines; the symbolic abort point is realised when the archive is "
     "written, so the solver drives a walk over the box (each path still ends in a z3-checked assertion)",
     encodes=ENC,
-    tiers={"quick": {"timeout": 1500, "K": {"MHI": 3, "KHI": 5}, "shards": product(method=["collect_paths", "collect_by_line"], am=[-1, 0, 1, 2])},
+    tiers={"quick": {"timeout": 1500, "K": {"MHI": 3, "KHI": 5}, "shards": product(method=["collect_paths", "collect_by_line"], am=[-1, 0, 1, 2]) + product(method=["next_paths", "fast_forward_paths", "fast_forward_by_line", "next_by_line"], am=[0, 2])},
            "thorough": {"timeout": 5000, "K": {"MHI": 3, "KHI": 5}, "shards": product(method=list(SERIAL + BYLINE), am=[-1, 0, 1, 2, 3])}},
 )
 def abort_record(method: str, am: int, ak: int) -> Dict[str, object]:
